@@ -826,7 +826,18 @@ impl Interp {
             "rsndefault" => (Slot::Rsn(RSNarrow::default(), 0), ok),
             "rswdefault" => (Slot::Rsw(RSWide::default(), 0), ok),
             "qwt" | "hqwt" | "wt" | "hwt" => {
-                let vals: Vec<u128> = args.iter().map(|x| x.parse().unwrap()).collect();
+                let vals: Vec<u128> = if variant == "rle" {
+                    // run-length encoded: value count value count ...
+                    let mut v = vec![];
+                    for ch in args.chunks(2) {
+                        let x: u128 = ch[0].parse().unwrap();
+                        let c: usize = ch[1].parse().unwrap();
+                        v.extend(std::iter::repeat(x).take(c));
+                    }
+                    v
+                } else {
+                    args.iter().map(|x| x.parse().unwrap()).collect()
+                };
                 let path = match variant {
                     "from" => Path::From,
                     "iter" => Path::Iter,
